@@ -236,7 +236,7 @@ func runProperty(w *World, o *checkOpts) *Report {
 			rep.Errors = append(rep.Errors, "lemma "+ax.Name+": "+err.Error())
 			continue
 		}
-		q := prelude + w.sorts.decls.String() + w.decls.String() + lv.body.String() + pre.String() + "(assert (not " + goal + "))\n(check-sat)\n"
+		q := prelude + w.sorts.decls.String() + bitsDecl + "\n" + w.decls.String() + lv.body.String() + pre.String() + "(assert (not " + goal + "))\n(check-sat)\n"
 		ob := &Obligation{Name: "lemma/" + ax.Name, Kind: "lemma", Props: ax.Props, Func: "lemmas", Claimed: true, Text: ax.Text, RawQuery: q}
 		fname := ax.Pkg + ".lemmas"
 		found := false
